@@ -12,7 +12,7 @@ for i in ids:
     p = props.P.get(i)
     if not p or not p.get('claimed', True): continue
     checks.append(dict(property_id=i, quick_cmd='./check %s --tier quick' % i, thorough_cmd='./check %s --tier thorough' % i,
-                       evidence_file='evidence/%s.json' % i, replay_cmd_template='./replay {path}', engine='irsx',
+                       evidence_file='evidence/%s.json' % i, replay_cmd_template='./replay_cex {path}', engine='irsx',
                        level_claimed=dict(category='model_checking', text=p['level_text'], design_ref=p['design_ref']),
                        level_note=p.get('level_note', 'trusted: clang-14 lowering + UBSan instrumentation, irsx IR semantics (validated per run by native differential replay), stub models of std/boost/Eigen/lemon as listed in the evidence assumptions, z3 (cross-checked by cvc5). Bounded: every claim holds for all values inside the stated structural and value bounds only.'),
                        technique=p.get('technique', 'bounded symbolic execution of the real code (clang LLVM IR) with z3 deciding every verification condition; counterexamples replayed natively')))
